@@ -38,8 +38,10 @@ DT == 150   DC == 3                       \* the default segments' own models
 ResT(c, k) == CASE c.sec[k].t = "segment" -> GT(k) [] c.sec[k].t = "section" -> ST(k) [] ~c.sec[k].present /\ c.defown -> DT [] OTHER -> FT
 ResC(c, k) == CASE c.sec[k].c = "segment" -> GC(k) [] c.sec[k].c = "section" -> SC(k) [] ~c.sec[k].present /\ c.defown -> DC [] OTHER -> FC
 
-TM(v) == <<TUniform(v, "replace")>>
-CM(v16) == <<CUniformF(<<1>>, <<Rat(v16, 16)>>, "replace")>>
+(* every list ends with a model that hands its input on unchanged (adds zero / adds to another label): a section's value is the
+   result of ITS OWN chain, so the running value of one section's chain must never leak into the other's *)
+TM(v) == <<TUniform(v, "replace"), TUniform(0, "add")>>
+CM(v16) == <<CUniformF(<<1>>, <<Rat(v16, 16)>>, "replace"), CUniformF(<<2>>, <<Rat(1, 4)>>, "add")>>
 BaseSeg == Segment(400 * Km, <<100 * Km>>, <<0>>, <<45>>)
 SegWith(t, cc) == BaseSeg @@ (IF t = <<>> THEN <<>> ELSE ("temperature models" :> t)) @@ (IF cc = <<>> THEN <<>> ELSE ("composition models" :> cc))
 
